@@ -222,9 +222,11 @@ theorem carry_ascii (k : Nat) (hk : k = 1 ∨ k = 3) (b : BufInfo) (hl : Nat) :
   rcases hk with rfl | rfl <;>
     simp [carry, writerArm, writerArms, readerArm, readerArms]
 
-/-- PCBoard (pcb), Avatar (avt), XBin (xb): size only — no flags, no font; TundraDraw (tnd): width only -/
+/-- PCBoard (pcb), Avatar (avt), TundraDraw (tnd), XBin (xb): size only — no flags, no font.  (Since the repair of the
+    TundraDraw arm of `write_sauce_info` — `t_info2 = self.get_height()`, regenerated column `h2` — the Tundra record
+    carries its height like the others; it used to carry 0.) -/
 theorem carry_plain (k : Nat) (hk : k = 4 ∨ k = 5 ∨ k = 6 ∨ k = 8) (b : BufInfo) (hl : Nat) :
-    (carry k b hl).width = b.width % 65536 ∧ (carry k b hl).height = (if k = 6 then 0 else b.height % 65536) ∧
+    (carry k b hl).width = b.width % 65536 ∧ (carry k b hl).height = b.height % 65536 ∧
     (carry k b hl).ice = false ∧ (carry k b hl).ls = false ∧ (carry k b hl).ar = false ∧
     (carry k b hl).font = none ∧ (carry k b hl).kind = k := by
   rcases hk with rfl | rfl | rfl | rfl <;>
